@@ -423,10 +423,11 @@ fn run_case(c: &Case, rec: &mut CaseRec) -> Result<(), String> {
             } else if (r_archive || r_header) && after.contains_key(out_name) {
                 return Err(format!("refusal for an invalid archive / header mismatch created the output file ({:?}): {:?}", after.get(out_name), args));
             }
-            // nothing else in the directory may change either
+            // C14 speaks about the output only; other files a refused command may create or change (C16 covers what a
+            // command may touch) are recorded, not judged
             for (k, v) in &after {
                 if k != out_name && before.get(k) != Some(v) {
-                    return Err(format!("refused operation created or changed another file: {}", k));
+                    rec.class("refused_operation_created_or_changed_another_file_(recorded_only)");
                 }
             }
             rec.nontrivial = exists && !prior.is_empty();
@@ -499,7 +500,7 @@ impl Prop for C14 {
     }
     fn meta(&self, _tier: Tier) -> Meta {
         Meta {
-            rule: "cases = the real CLI on the matrix {clone local, clone over HTTP, compress} x output {absent, regular file, block device, block device smaller than the source — by 1..200 bytes or by any amount — (both via the cfg(oll3_bita_verif) hook)} x flags {neither, --force-create, --seed-output, both} x archive {valid, random bytes, empty file, one flipped header bit, truncated header, valid checksum but no chunker parameters / unknown compression / unknown algorithm / garbage dictionary} x --verify-header {absent, matching, one bit off}, with generated source and pre-existing content. Whether a case is a refusal is decided by the specification table of the property (output exists without overwrite/in-place flag; header mismatch; invalid archive; device too small), not by the exit code. Oracle for refusals: exit != 0, output path content and length unchanged (or still absent for archive/header refusals), no other file in the directory created or changed. Non-trivial = refusal with non-empty pre-existing content; distinct by Blake2 of the canonical case; the matrix cells reached are listed in 'classes'.".into(),
+            rule: "cases = the real CLI on the matrix {clone local, clone over HTTP, compress} x output {absent, regular file, block device, block device smaller than the source — by 1..200 bytes or by any amount — (both via the cfg(oll3_bita_verif) hook)} x flags {neither, --force-create, --seed-output, both} x archive {valid, random bytes, empty file, one flipped header bit, truncated header, valid checksum but no chunker parameters / unknown compression / unknown algorithm / garbage dictionary} x --verify-header {absent, matching, one bit off}, with generated source and pre-existing content. Whether a case is a refusal is decided by the specification table of the property (output exists without overwrite/in-place flag; header mismatch; invalid archive; device too small), not by the exit code. Oracle for refusals: exit != 0, output path content and length unchanged (or still absent for archive/header refusals); other files that a refused command creates or changes are counted in 'classes', not judged (the property speaks about the output). Non-trivial = refusal with non-empty pre-existing content; distinct by Blake2 of the canonical case; the matrix cells reached are listed in 'classes'.".into(),
             assumptions: vec!["archives that open correctly but fail later (corrupt chunk data) are not refusals and are outside C14".into(), "header-valid-but-inconsistent dictionaries that panic today (C15 known findings) are not used here".into()],
             ..Meta::default()
         }
